@@ -333,7 +333,7 @@ def build_unit(u, repo, tmp, falsify=None):
     for kind, val in segs:
         if kind == "text":
             if falsify:
-                mm = re.search(r"proof fn " + re.escape(falsify) + r"\b.*?\n\s*(ensures.*?)\n\{", val, re.S)
+                mm = re.search(r"proof fn " + re.escape(falsify) + r"\b.*?\n\s*(ensures.*?)(?=\n\s*decreases|\n\{)", val, re.S)
                 if mm:
                     val = val[:mm.start(1)] + "ensures false," + val[mm.end(1):]
             out_lines += val.split("\n")
@@ -389,6 +389,8 @@ def vacuity_check(u, name, repo, tmp):
     if js is None:
         return None
     rng = ranges.get(name)
+    if any(not any(msg.startswith(v) for v in VERIF_ERRORS) and "aborting due to" not in msg for msg, _ in errs):
+        return None     # the twin did not get as far as verification
     return any(rng[0] <= ln <= rng[1] and msg.startswith("postcondition not satisfied") for msg, ln in errs)
 
 
